@@ -44,11 +44,11 @@ def run(model, res, tier):
         if need not in cbs:
             raise AnalysisError('callback %s not bound into the grammar parser (anchor vanished)' % need)
     ctx = {'model': model, 'c': c, 'res': res, 'cbs': cbs}
-    _r1_r5(ctx)
-    _r2(ctx)
-    _r3(ctx)
-    _r4(ctx)
-    _r7(ctx)
+    H.safely(res, 'R1', 'r1_r5', _r1_r5, ctx)
+    H.safely(res, 'R2', 'r2', _r2, ctx)
+    H.safely(res, 'R3', 'r3', _r3, ctx)
+    H.safely(res, 'R4', 'r4', _r4, ctx)
+    H.safely(res, 'R7', 'r7', _r7, ctx)
     keys = sorted(set(cbs.values()))
     region = c.cg.reachable(keys) - set(c.cg.registry_keys)
     purity.check_region(res, c, 'R8', None, region, 'a reference callback')
@@ -91,7 +91,7 @@ def run_callback(ctx, cb, make_args, listener_script=None, subscribe=True, opaqu
                         done = args[-1]
                         for v in listener_script():
                             interp2.call(done, [v])
-                    return Const(None)
+                    return ctx.get('listener_returns') or Const(None)
                 interp.extern['hx:listener:' + ev] = listener
                 interp.call(on, [Const(ev), Builtin('hx:listener:' + ev)])
         return interp.call(fv, [parser] + make_args(interp))
@@ -189,13 +189,18 @@ def _r1_r5(ctx):
             ('value then None', lambda: [Sym('int', 'V'), Const(None)], ('sym', 'V')),
             ('two values', lambda: [Sym('int', 'V1'), Sym('int', 'V2')], ('sym', 'V2')),
             ('value, None, value', lambda: [Const(1), Const(None), Const(0)], ('const', 0)),
+            # only what is handed to the setter counts: a listener's return value is not an answer
+            ('a number, and the listener returns another value', lambda: [Sym('int', 'V')], ('sym', 'V')),
         ]
         for label, script, want in scripts:
+            ctx['listener_returns'] = Sym('int', 'RETURNED') if 'listener returns' in label else None
             try:
                 outs, _ = _run_with_function(ctx, cb, with_fn, script)
             except Unmodelled as e:
                 res.ob('R5', site, label, True, 'undecided: %s' % e)
                 continue
+            finally:
+                ctx['listener_returns'] = None
             bad = []
             for o in outs:
                 if o.imprecise:
@@ -277,7 +282,7 @@ def _run_with_function(ctx, cb, mk, script, fn_result=None):
                 if script is not None and args:
                     for v in script():
                         interp2.call(args[-1], [v])
-                return Const(None)
+                return ctx.get('listener_returns') or Const(None)
             interp.extern['hx:listener:' + ev] = listener
             interp.call(on, [Const(ev), Builtin('hx:listener:' + ev)])
         return interp.call(fv, [parser, Const('F'), ListV([Sym('int', 'arg')])])
